@@ -445,7 +445,7 @@ def stmt_slot_cases(rng):
 def extras_cases(rng):
     """dialect builders' own slots (python-only: oracle family)"""
     out = []
-    A = list(A_POOL[0])
+    A = list(A_POOL[2])          # aliased, so that its columns are qualified even in single-table statements
     fa = ["field", "x", list(A), None]
     dj = [["on", "", ["table", list(D_TBL)], ["basic", "eq", ["field", "k", list(D_TBL), None], ["field", "k", list(A), None], None]]]
     specs = [
@@ -455,6 +455,5 @@ def extras_cases(rng):
         {"dialect": "clickhouse", "mode": "select", "from": [["table", A]], "joins": dj, "selects": [["field", "y", list(D_TBL), None]], "extras": {"distinct_on": [fa]}},
     ]
     for st in specs:
-        B = fresh_B(rng, A, stmt_tables(st))
-        out.append({"kind": "stmt", "A": A, "B": B, "s": st, "fam": "extras"})
+        out.append({"kind": "stmt", "A": A, "B": ["b", [], "bb"], "s": st, "fam": "extras"})
     return out
